@@ -101,9 +101,11 @@ def hex_exactly_one_orbit_member_in_first_third(ctx):
             ctx.check("60-degree-line cell is in the domain", inside[m])
 
 
-@harness("C08", bounds="all integers i,j; pitch in (0.01,1000); flats-up coordinates", stubs=STUBS)
+@harness("C08", bounds="|i|,|j| <= 10^6; pitch in (0.01,1000); flats-up coordinates (a cell off a symmetry line is at "
+                       "least one pitch away from it, the comparison tolerance is 1e-9..1e-7 of the coordinate scale)",
+         stubs=STUBS)
 def hex_symmetry_line_classification_matches_coordinates(ctx):
-    i, j = ctx.int("i"), ctx.int("j")
+    i, j = ctx.int("i", -10 ** 6, 10 ** 6), ctx.int("j", -10 ** 6, 10 ** 6)
     p = ctx.real("pitch", 0.01, 1000.0)
     g = HexGrid.fromPitch(p, numRings=1, symmetry=THIRD)
     line = g.overlapsWhichSymmetryLine((i, j))
@@ -112,10 +114,11 @@ def hex_symmetry_line_classification_matches_coordinates(ctx):
     x, y = (s3 / 2) * p * i, p * i / 2 + p * j
     if ctx.canary:
         y = y + p * ITE(AND(i == 2, j == -1), 1, 0)
-    ctx.check("centre iff at the origin", IFF(line == BOUNDARY_CENTER, AND(x == 0, y == 0)))
-    ctx.check("0-degree line iff polar angle 0", IFF(line == BOUNDARY_0_DEGREES, AND(y == 0, x > 0)))
-    ctx.check("60-degree line iff polar angle 60", IFF(line == BOUNDARY_60_DEGREES, AND(y == s3 * x, x > 0)))
-    ctx.check("120-degree line iff polar angle 120", IFF(line == BOUNDARY_120_DEGREES, AND(y == -s3 * x, x < 0)))
+    sc = p * (abs(i) + abs(j) + 1)
+    ctx.check("centre iff at the origin", IFF(line == BOUNDARY_CENTER, AND(CLOSE(x, 0, sc), CLOSE(y, 0, sc))))
+    ctx.check("0-degree line iff polar angle 0", IFF(line == BOUNDARY_0_DEGREES, AND(CLOSE(y, 0, sc), x > 0)))
+    ctx.check("60-degree line iff polar angle 60", IFF(line == BOUNDARY_60_DEGREES, AND(CLOSE(y, s3 * x, sc), x > 0)))
+    ctx.check("120-degree line iff polar angle 120", IFF(line == BOUNDARY_120_DEGREES, AND(CLOSE(y, -s3 * x, sc), x < 0)))
 
 
 @harness("C08", bounds="all integers i,j,k-index; rotations in the window [-13,13]; both orientations",
